@@ -26,6 +26,7 @@ func checkParser(c *checkCtx, prop string) {
 	c.assume = []string{
 		"grammars are sampled; the universal quantifier over token sequences is discharged by the Coq theorems for every grammar whose tables pass the validator",
 		"the runtime model (ParseRuntime.v) is tied to the generated Go code by this run's differential comparison",
+		"the sugared grammar's documented meaning is connected to the plain productions by Gen/NormalizeModel.normalize (normalize_sound / normalize_complete), compared with the dumped production list of every generated grammar",
 	}
 	c.coqObligations()
 
@@ -56,6 +57,7 @@ func checkParser(c *checkCtx, prop string) {
 		c.addFinding(finding{Signature: "hook-failed", Desc: err.Error(), NoInput: true, Theorem: "loxverif dump", Replay: map[string]any{}})
 		return
 	}
+	checkSugarModel(c, ws.specs)
 	accepted := 0
 	for _, s := range ws.specs {
 		d := s.dump
